@@ -271,6 +271,15 @@ def dict_get(I, st, o: DictObj, key, site, strict=True, default=None):
         if strict:
             raise SymRaise(ClassVal("KeyError", KeyError), st, f"key {key!r}", site)
         return default
+    from .values import Chr
+    if isinstance(key, Rope) and len(key.pieces) == 1 and isinstance(key.pieces[0], Chr):
+        cp = key.pieces[0].cp
+        keys = [k for k in o.items if isinstance(k, str) and len(k) == 1]
+        conds = [z3.And(cp == ord(k), to_z3(o.present.get(k, True))) for k in keys]
+        if strict:
+            I.check(st, z3.Or(*conds) if conds else False, "KeyError", "dict.key", site)
+            return ite_chain(st, [(conds[i], o.items[keys[i]]) for i in range(len(keys) - 1)], o.items[keys[-1]])
+        return ite_chain(st, [(conds[i], o.items[keys[i]]) for i in range(len(keys))], default)
     if is_strterm(key):
         keys = [k for k in o.items if isinstance(k, str)]
         conds = [z3.And(key == lit(k), to_z3(o.present.get(k, True))) for k in keys]
